@@ -76,6 +76,20 @@ def check(run, prog):
     from .. import structural
     structural.report(ck, prog, "R4", [f for f in prog.all_functions if f.module in SCOPE and f.kind not in ("nested", "lambda")], "pulsarbat (laziness scope)")
     fft_chunk_discipline(ck, prog, "R2")
+    # Dask arrays of unknown extent (boolean-mask selections: the shape holds NaN until computed) are legitimate signal data: the
+    # constructor's shape checks must not mistake "unknown" for "empty"
+    init = prog.func("Signal.__init__")
+    for shp, what in (((N, sp.nan), "unknown number of columns"), ((N, sp.Integer(3), sp.nan), "unknown trailing extent")):
+        ev = ck.evaluator()
+        data = Num(sp.Symbol("D_masked"), kind="array", shape=shp, tag="data", backend="dask", dtype=ExtV("numpy.float64"))
+        tag = f"Signal(<Dask array, {what}>)"
+        try:
+            o = ev.construct(prog.cls("Signal"), [data], {"sample_rate": Num(SR * Hz, kind="quantity")}, FR())
+            ck.same("R2", init.where, tag, "accepted, the data stays the lazy array", isinstance(o, ObjV) and o.attrs.get("_data") is data, found=obj_summary(o)[:100], nontrivial=True)
+        except Raised as e:
+            ck.same("R2", init.where, tag, "accepted (NumPy-backed data of the same kind is)", False, found=str(e)[:160], nontrivial=True)
+        except Unsupported as e:
+            ck.unk("R2", init.where, tag, "the constructor evaluates on a shape with an unknown extent", str(e)[:200])
     # out=/in-place forms: the Dask-backed target ends up as the NumPy-backed one would (same dtype, or the same refusal)
     from .c17 import dask_out_rule
     dask_out_rule(ck, prog, "R2")
